@@ -400,6 +400,9 @@ def resolve(st, v):
 # ------------------------------------------------------------------ attribute access
 def getattr_(interp, st, v, name):
     v = resolve(st, v)
+    if hasattr(v, 'vf_getattr'):
+        yield from v.vf_getattr(interp, st, name)
+        return
     if isinstance(v, Obj):
         a = v.get(name)
         if isinstance(a, Property):
